@@ -77,10 +77,10 @@ def persisted_fields(chk: Check, rule: str = 'SYM-persisted-field') -> None:
             lb: Dict[object, Set[str]] = {}
             for k in c.mro_classes():
                 if 'save_instance_state' in k.methods:
-                    for key, attrs in saved_bindings(ctx, prog.view(k.methods['save_instance_state'])).items():
+                    for key, attrs in saved_bindings(ctx, prog.view(k.vmethods['save_instance_state'])).items():
                         sb.setdefault(key, set()).update(attrs)
                 if 'load_instance_state' in k.methods:
-                    for key, attrs in loaded_bindings(ctx, prog.view(k.methods['load_instance_state'])).items():
+                    for key, attrs in loaded_bindings(ctx, prog.view(k.vmethods['load_instance_state'])).items():
                         lb.setdefault(key, set()).update(attrs)
             keys = [key for key, attrs in sb.items() if attr in attrs and attr in lb.get(key, set())]
             chk.ob(rule, cq, bool(keys) or attr in auto,
@@ -101,7 +101,7 @@ def load_is_deterministic(chk: Check, rule: str = 'LOAD-deterministic') -> None:
     roots = []
     for c in prog.all_classes():
         for name in ('load_instance_state', 'recreate_from', 'recreate_stepper'):
-            f = c.methods.get(name)
+            f = c.vmethods.get(name)
             if f is not None:
                 roots.append(f)
     chk.floor(rule, len(roots), 15)
@@ -131,7 +131,7 @@ def restored_fields_not_clobbered(chk: Check, rule: str = 'SYM-default-before-re
     may only set up runtime fields -- never a persisted one (the pause flag of a process that terminated while paused, say)."""
     prog = chk.prog
     proc = prog.cls('processes.Process')
-    init = prog.view(proc.methods['init'])
+    init = prog.view(proc.vmethods['init'])
     persisted = set(auto_persist_set(prog, proc)) | {a for cq, a, _ in PERSISTED if cq == 'processes.Process'}
     n = 0
     for x in ast.walk(init.node):
@@ -160,12 +160,12 @@ def run(chk: Check) -> None:
     # (ii) key agreement per class: what is saved is loaded and vice versa
     n_keys = 0
     for c in classes:
-        sf, lf = prog.view(c.methods.get('save_instance_state')), prog.view(c.methods.get('load_instance_state'))
+        sf, lf = prog.view(c.vmethods.get('save_instance_state')), prog.view(c.vmethods.get('load_instance_state'))
         if sf is None and lf is None:
             continue
         saved = dict(saved_keys_of(prog, sf)) if sf else {}
         loaded = dict(loaded_keys_of(prog, lf)) if lf else {}
-        rf = prog.view(c.methods.get('recreate_from'))  # a class may restore its keys in its own recreate_from (SavableFuture)
+        rf = prog.view(c.vmethods.get('recreate_from'))  # a class may restore its keys in its own recreate_from (SavableFuture)
         if rf is not None:
             for k, v in loaded_keys_of(prog, rf).items():
                 loaded.setdefault(k, []).extend(v)
@@ -188,7 +188,7 @@ def run(chk: Check) -> None:
     # (iii) load-context reads are supplied or guarded
     supplied = context_kwargs(prog)
     for c in classes:
-        lf = prog.view(c.methods.get('load_instance_state'))
+        lf = prog.view(c.vmethods.get('load_instance_state'))
         if lf is None:
             continue
         for attr, node, guarded in context_reads(lf):
@@ -210,7 +210,7 @@ def run(chk: Check) -> None:
     n_sup = 0
     for c in classes:
         for name in ('save_instance_state', 'load_instance_state'):
-            f = prog.view(c.methods.get(name))
+            f = prog.view(c.vmethods.get(name))
             if f is None:
                 continue
             n_sup += 1
